@@ -27,6 +27,7 @@ type strategy struct {
 	rrNext     int
 }
 
+//go:norace
 func (st *strategy) init(s *Sim) {
 	c := s.Ch
 	st.kind = c.Weighted(3, 3, 3, 2, 1)
@@ -50,11 +51,16 @@ func (st *strategy) init(s *Sim) {
 
 // SetStrategy lets a world force a strategy for a phase (e.g. round-robin for
 // bounded-liveness phases). It draws nothing.
+//
+//go:norace
 func (s *Sim) SetStrategy(kind int) { s.strat.kind = kind }
 
 // Strategy returns the strategy kind of this run.
+//
+//go:norace
 func (s *Sim) Strategy() int { return s.strat.kind }
 
+//go:norace
 func (st *strategy) newPrio(s *Sim) int {
 	// priorities are only used by pct; drawn from the rng without recording
 	// (replay does not consult them)
@@ -64,6 +70,7 @@ func (st *strategy) newPrio(s *Sim) int {
 	return 1 + s.Ch.rng.Intn(1<<20)
 }
 
+//go:norace
 func (st *strategy) decide(s *Sim, r *RNG, run []*Task, curIn bool) int {
 	n := len(run)
 	switch st.kind {
